@@ -178,8 +178,11 @@ def run(ctx):
         if r.invariant != "Reached":
             raise vlib.Infra("MC_PrimitiveSet: no well-formed, class-admitted keyset of full length is reached (vacuous): %s" % r.summary())
         if ctx.thorough:
-            ctx.model_check("MC_PrimitiveSet", "MC_PrimitiveSet", stage="M:all keysets <=3 keys, both implementations", timeout=7200)
-            ctx.model_check("MC_PrimitiveSetHist", "MC_PrimitiveSetHist", timeout=7200,
+            # (must_cover=False: -coverage 1 doubles the cost of these invariant-heavy runs and vlib does not read it;
+            #  that the invariant is evaluated on full-length keysets is what the Reached run above establishes)
+            ctx.model_check("MC_PrimitiveSet", "MC_PrimitiveSet", stage="M:all keysets <=3 keys, both implementations", timeout=7200,
+                            must_cover=False)
+            ctx.model_check("MC_PrimitiveSetHist", "MC_PrimitiveSetHist", timeout=7200, must_cover=False,
                             stage="M:rotation histories (KeysetManager), <=3 entries, external handles <=2 keys, 9 classes")
         else:
             # (few workers: a 16-slot request starves on a shared machine; these runs take seconds of CPU)
